@@ -1065,6 +1065,50 @@ func (e *c16Env) streamingWhileClientLeaves(round int) {
 	}
 }
 
+// legacyRelaySessions: a broker that does not name a relay (older broker): the proxy falls back to its own -relay
+// URL. Three clients are served at the same time; each handler dials the relay with its own client_ip parameter.
+func (e *c16Env) legacyRelaySessions() {
+	r := e.r
+	tokens = newTokens(4)
+	sf := c16Proxy("$", true)
+	sf.RelayURL = e.relay.wsURL("/own-relay")
+	before := e.relay.nHits()
+	var clients []*c16Client
+	line := "c16 events 3 4 d d d  [the broker names no relay URL: three overlapping sessions use the proxy's own relay URL]"
+	for i := 0; i < 3; i++ {
+		c, err := c16NewClient()
+		if err != nil {
+			r.Note("legacy relay sessions: client: %v", err)
+			break
+		}
+		clients = append(clients, c)
+		p := &c16Plan{poll: "offer", offer: c.offer, client: c, answer: "accept", applyAfter: 0, relayURL: ""}
+		if _, o := e.session(sf, p, 15*time.Second); o != "ok" {
+			r.OracleFail("run-session-"+o, line, o, "runSession did not return")
+			break
+		}
+	}
+	deadline := time.Now().Add(10 * time.Second)
+	for e.relay.nHits()-before < len(clients) && time.Now().Before(deadline) {
+		time.Sleep(20 * time.Millisecond)
+	}
+	r.Case("exit/d/own-relay-url-three-at-once", fmt.Sprintf("%s -> %d relay connections", line, e.relay.nHits()-before), true)
+	for _, c := range clients {
+		select {
+		case <-c.opened:
+			c.dc.Send(make([]byte, 512))
+		default:
+		}
+	}
+	time.Sleep(200 * time.Millisecond)
+	for _, c := range clients {
+		c.pc.Close()
+	}
+	if after := c16WaitCount(0, 20*time.Second, 200*time.Millisecond); after != 0 {
+		r.OracleFail("slot-leaked/own-relay", line, fmt.Sprintf("slots in use 20 s after the clients left: %d", after), "every session gives its slot back")
+	}
+}
+
 // stalledRelay: the relay accepted the proxy's connection and then stopped reading and never closes; the client uses
 // the session for a moment and leaves. The handler must end (closing the relay connection cannot wait for the
 // relay's cooperation) and the slot must come back.
@@ -1686,6 +1730,9 @@ func TestVerifC16(t *testing.T) {
 	}
 	if e.pionOK && !broken() {
 		e.stalledRelay()
+	}
+	if e.pionOK && !broken() {
+		e.legacyRelaySessions()
 	}
 	for k := 0; k < r.N(2, 6) && e.pionOK && !broken(); k++ {
 		e.streamingWhileClientLeaves(k)
